@@ -352,6 +352,19 @@ def build_cases(tier, r):
             cases.append((x, ind, 'numbers'))
         cases.append(([x, x], None, 'numbers'))
         cases.append(({'n': x, 'm': [x]}, 2, 'numbers'))
+    # strings and keys whose CONTENT looks like number text (Python's and JSON's spellings) followed by a delimiter: no pass over the finished
+    # text may touch them
+    spell = set()
+    for x in NUMS + [1e-05, 2e-05, 1.5e-06, 1e-09, 1e+16, 123456.0]:
+        spell.update([repr(x), repr(x).replace('e-0', 'e-').replace('e+', 'e'), repr(x).upper()])
+    spell.update(['1e-05', '1e-5', '1E-05', '1.0', '1.', '01', '1e+16', '1e16', '-0.0', '-0', '0.10'])
+    spell = sorted(spell)
+    for j, t in enumerate(spell):
+        for d in (',', ']', '}', '\n', '', ', ', ':'):
+            sj = t + d + (spell[(j * 7 + 3) % len(spell)] if d in (',', ', ', ':') else '')
+            cases.append((sj, None, 'number-text'))
+            cases.append(([sj, 1e-05, sj], None if j % 2 else 1 + j % 8, 'number-text'))
+            cases.append(({sj: 1e-07, 'z': sj}, None if j % 3 else 1 + j % 8, 'number-text'))
     # structured random, depth <= 5
     n_rand = 2500 if tier == 'quick' else 40000
     for _ in range(n_rand):
@@ -459,7 +472,7 @@ def run(tier):
     # ---- correspondence inside Coq
     corr_n = 0
     if model_ok:
-        budget = {'corpus': 10**9, 'exh-value': 250, 'exh-key': 200, 'exh-array': 150, 'exh-escape': 200, 'numbers': 250, 'random': 500}
+        budget = {'corpus': 10**9, 'exh-value': 250, 'exh-key': 200, 'exh-array': 150, 'exh-escape': 200, 'numbers': 250, 'random': 500, 'number-text': 250}
         if tier == 'thorough':
             budget = {k: v * 5 for k, v in budget.items()}
         by_tag = {}
